@@ -316,7 +316,8 @@ def gen(seed, n):
                    (F(2 ** 30 - 1), F(2 ** 30 - 1)), (F(-(2 ** 30 - 1)), F(-(2 ** 30 - 1))), (F(2 ** 30 - 1), F(1)),
                    (F(2 ** 30), F(2 ** 30)), (F(2 ** 30 - 1), F(-(2 ** 30))), (F(2 ** 29), F(2 ** 29)),
                    (F(3 * 2 ** 28), F(1)), (F(3 * 2 ** 28), F(3 * 2 ** 28)), (F(2 ** 30 - 1), F(1, 2)),
-                   (F(32767), F(32767, 2 ** 15)), (F(32767) * 2 ** 15, F(32767)), (F(32767) * 2 ** 16, F(1))]
+                   (F(32767), F(32767, 2 ** 15)), (F(32767) * 2 ** 15, F(32767)), (F(32767) * 2 ** 16, F(1)),
+                   (F(2 ** 31 - 2), F(3)), (F(2 ** 31 - 2), F(2 ** 30 - 1)), (F(-(2 ** 31 - 2)), F(-3))]
     for a, b in many(arith_fixed, arith_pair):
         add("add", a=bn(a), b=bn(b), r=bn(a + b))
     for a, b in many(arith_fixed, arith_pair):
